@@ -23,6 +23,9 @@ def load_spec(name):
     if name.startswith('gen:'):
         from . import gen_spec
         return gen_spec.generate(int(name[4:]))
+    if name.startswith('pgen:'):
+        from . import gen_spec
+        return gen_spec.generate_flat(int(name[5:]))
     return importlib.import_module('vf.corpus.' + name).spec()
 
 
